@@ -628,3 +628,42 @@ end C16
 end Text
 end Spec
 end ProcSim
+
+/-! ## C14 (appendix) — what a single-fault corruption must be answered with (used by `C14_syntax_errors`) -/
+namespace ProcSim
+namespace Spec
+namespace Text
+
+open Program (ParseError)
+
+/-- a written instruction without fault: mnemonic fine, at least one operand, every operand a token -/
+def faultFree (i : SrcInstr) : Bool := nameOK i.name && !i.ops.isEmpty && i.ops.all tokOK
+
+/-- physical number of the line of instruction `j` (0-based) when the text starts at line `n`: the blank lines
+chosen before instructions `0..j` are counted, each earlier instruction occupies one line -/
+def lineFrom : Nat → List LineWs → Nat → Nat
+  | n, ws, 0 => n + (ws.headD {}).blanks.length
+  | n, ws, j + 1 => lineFrom (n + (ws.headD {}).blanks.length + 1) ws.tail j
+
+/-- 1-based physical line of instruction `j` of `renderProgram is ws tail` -/
+def lineOf (ws : List LineWs) (j : Nat) : Nat := lineFrom 1 ws j
+
+/-- the syntax error that fault `f` of the fault-free list `is` must raise; `none`: the fault changes nothing
+(instruction or operand index out of range).
+* all operands removed → "No operands";
+* operand `k` emptied → "Operand k empty" — but the sole operand emptied leaves the bare mnemonic → "No operands";
+* an empty operand inserted at position `k` (clamped to `1 .. len+1`) → "Operand k empty". -/
+def faultError (f : Fault) (is : List SrcInstr) (ws : List LineWs) : Option ParseError :=
+  match f with
+  | .noOps j => is[j]?.map (fun i => .noOperands (lineOf ws j) i.name)
+  | .emptyOp j k =>
+    is[j]?.bind (fun i =>
+      if 1 ≤ k ∧ k ≤ i.ops.length then
+        some (if i.ops.length = 1 then .noOperands (lineOf ws j) i.name else .emptyOperand (lineOf ws j) i.name k)
+      else none)
+  | .extraEmpty j k =>
+    is[j]?.map (fun i => .emptyOperand (lineOf ws j) i.name (min (max k 1) (i.ops.length + 1)))
+
+end Text
+end Spec
+end ProcSim
